@@ -8,6 +8,7 @@
 from __future__ import annotations
 
 import collections
+import itertools
 import logging
 import operator
 import sys
@@ -47,6 +48,7 @@ from ampform.helicity.naming import (
     HelicityAmplitudeNameGenerator,
     NameGenerator,
     collect_spin_projections,
+    create_amplitude_base,
     create_amplitude_symbol,
     generate_transition_label,
     get_helicity_angle_symbols,
@@ -454,7 +456,20 @@ class HelicityAmplitudeBuilder:
 
         amplitude = self.config.spin_alignment.formulate_amplitude(self.reaction)
         spin_projections = collect_spin_projections(self.reaction)
+        self.__define_missing_amplitudes(spin_projections)
         return PoolSum(sp.Abs(amplitude) ** 2, *spin_projections.items())
+
+    def __define_missing_amplitudes(
+        self, spin_projections: dict[sp.Symbol, set[sp.Rational]]
+    ) -> None:
+        """Set amplitudes to zero for helicity combinations without transition."""
+        pools = [sorted(values) for values in spin_projections.values()]
+        for topology in group_by_topology(self.reaction.transitions):
+            base = create_amplitude_base(topology)
+            for helicities in itertools.product(*pools):
+                symbol = base[helicities]
+                if symbol not in self.__ingredients.amplitudes:
+                    self.__ingredients.amplitudes[symbol] = sp.S.Zero
 
     def __register_amplitudes(self, transition_group: list[StateTransition]) -> None:
         transition_by_topology = group_by_topology(transition_group)
